@@ -444,8 +444,9 @@ open Mgr in
 error is raised to the caller inside `handle_message`; nothing is queued) -/
 theorem late_call_refused_at_once (s : MState) (hr : s.running = false) (r : Nat) (hn : r ∉ s.delivered) :
     ∃ s', mstep s (.deliver r) = some s' ∧ (r, Ans.refused) ∈ s'.answered ∧ s'.fifo = s.fifo := by
-  refine ⟨_, by simp only [mstep, hn, hr, if_false, Bool.false_eq_true]; rfl, ?_, rfl⟩
-  simp
+  refine ⟨{ s with answered := s.answered ++ [(r, .refused)], delivered := s.delivered ++ [r] }, ?_, ?_, rfl⟩
+  · simp [mstep, hn, hr]
+  · simp
 
 open Mgr in
 /-- `stop()` completes: once shutdown was requested the worker always has an enabled step, that step lowers the rank
@@ -482,7 +483,7 @@ theorem manager_stop_completes (acts : List MAct) (s : MState) (h : mrun MState.
     | see =>
       simp only [mstep] at hs
       split at hs
-      · cases hs; simp only [MState.rank]; split <;> omega
+      · cases hs; cases hx : s.seen <;> cases hy : s.exited <;> simp [MState.rank, hx, hy]
       · cases hs
     | exec r =>
       simp only [mstep] at hs
@@ -501,7 +502,7 @@ theorem manager_stop_completes (acts : List MAct) (s : MState) (h : mrun MState.
     | exit =>
       simp only [mstep] at hs
       split at hs
-      · cases hs; simp only [MState.rank]; split <;> omega
+      · cases hs; cases hx : s.seen <;> cases hy : s.exited <;> simp [MState.rank, hx, hy]
       · cases hs
 
 open Mgr in
